@@ -177,8 +177,10 @@ func runC01(ctx *report.Ctx) {
 					t := g.nodes[g.c.Choose(len(g.nodes), "target")]
 					return yc.JumpE(yc.EBinary("+", yc.EString(""), yc.EString(t)))
 				},
-				"setn":    func(g *progGen) *yc.Stmt { return yc.Set("n", "=", yc.ENumber(float64(1+g.lineNo))) },
-				"linevar": func(g *progGen) *yc.Stmt { return yc.LineOf(&yc.LineSpec{Parts: []yc.Part{{Src: "v=", Want: "v="}, {E: yc.EVariable("f")}}}) },
+				"setn": func(g *progGen) *yc.Stmt { return yc.Set("n", "=", yc.ENumber(float64(1+g.lineNo))) },
+				"linevar": func(g *progGen) *yc.Stmt {
+					return yc.LineOf(&yc.LineSpec{Parts: []yc.Part{{Src: "v=", Want: "v="}, {E: yc.EVariable("f")}}})
+				},
 			}}
 		p := g.program(2)
 		if !c.Mine() {
